@@ -17,6 +17,9 @@ package main
 // non-zero value in a struct (given value or NOW) / given as nil in a map (NULL or NOW); values of zero-valued or
 // default-tagged or auto-time columns in created rows (C03's business); the primary key column of created rows;
 // when the write returns an error only the "never changes" demands are judged.
+// Updates(dto) with a value of a DIFFERENT struct type: columns the model's tags deny never change; columns only the
+// DTO's tags deny are latitude.  Map values may be SQL expressions (gorm.Expr("`col` + ?", 1000)): the cell must hold
+// old+1000 when the key is in the write set.  Select/Omit names are spelled as field name, column, `table.column`, `table.*`.
 // Explicit clause.OnConflict{DoUpdates} lists name permitted plain columns only: gorm passes caller-supplied
 // assignments through verbatim, they are not part of the write set gorm computes.
 
@@ -801,6 +804,8 @@ func init() {
 		} else if tier == "search" {
 			n = 4000
 		}
+		t0 := time.Now()
+		defer func() { r.Note("c10 table-diff: n=%d took %.1fs", n, time.Since(t0).Seconds()) }()
 		for i := 0; i < n && !expired(); i++ {
 			e := genC10E(rng, r)
 			if i == 0 {
